@@ -166,6 +166,10 @@ class SVExecutor(Executor):
         return None
 
     def _do_controlled_qubit_rotation(self, instr, subroutine_id, address1, address2, angle):
+        # NV hardware: the only controlled rotations are those controlled by the electron (virtual id 0);
+        # every decomposition of the pass is built on that
+        if address1 != 0:
+            raise ValueError("controlled rotation whose control is not the electron")
         self._apply2(instr.to_matrix(), address1, address2)
         return None
 
@@ -580,7 +584,7 @@ class ProgGen:
         if depth > 0:
             kinds += ["if", "if", "ifelse", "loop", "tgt-gate", "tgt-gate", "tgt-gate"]
         if depth == 2 and self.nq >= 3 and not self.in_realloc:
-            kinds += ["realloc", "realloc"]
+            kinds += ["realloc", "realloc", "persist2", "persist2"]
             if self.loads:
                 kinds += ["nonset-live", "nonset-live", "nonset-live"]
         k = rng.choice(kinds)
@@ -590,6 +594,8 @@ class ProgGen:
             return self.gate_as_target(depth)
         if k == "realloc":
             return self.free_and_realloc()
+        if k == "persist2":
+            return self.persist_two_qubit()
         if k == "g1":
             cs = [c for c in GATE1 if c not in self.exclude]
             qr = self.qreg()
@@ -613,10 +619,13 @@ class ProgGen:
         elif k == "mov":
             c = rng.randrange(1, self.nq)
             a, b = (0, c) if rng.random() < 0.5 else (c, 0)
+            runtime_ids = rng.random() < 0.35
+            if runtime_ids:
+                a, b = 0, c  # the pass assumes electron -> carbon when it does not know the ids (SDK shape)
             qa = self.qreg()
             qb = self.qreg(avoid=(qa,))
             # the NV circuits implement "move into a |0> target; source is left to be freed"
-            if rng.random() < 0.35:
+            if runtime_ids:
                 # the SDK's multi-pair EPR shape: ids in R registers, unknown to the pass
                 # (`sub R3 ..; set R4 0; mov R4 R3; qfree R4`)
                 self.emit("core.SetInstruction", reg(R, 6), imm(b))
@@ -676,6 +685,52 @@ class ProgGen:
             self.features.add("loop")
         else:
             self.stmt(depth)
+
+    def persist_two_qubit(self):
+        """Two dedicated Q registers are `set` ONCE; then instructions that do not write them (qalloc,
+        init, a gate, meas, qfree, and unrelated straight-line statements) and, WITHOUT a new `set`, the
+        registers are operands of cnot / cphase (either order) and of mov (either direction): register
+        values persist across qfree/qalloc/init/meas, and the placement (electron/carbon, which role)
+        must be decided by the value the register still holds."""
+        rng = self.rng
+        self.in_realloc = True
+        qa, qb = 5, 6
+        pair = rng.choice(["ec", "ce", "cc"]) if self.nq >= 3 else rng.choice(["ec", "ce"])
+        c = rng.randrange(1, self.nq)
+        if pair == "ec":
+            a, b = 0, c
+        elif pair == "ce":
+            a, b = c, 0
+        else:
+            a, b = c, rng.choice([x for x in range(1, self.nq) if x != c])
+        if pair == "cc":
+            self.features.add("cc")  # (also tells the history generator: no retry point behind this)
+        self.emit("core.SetInstruction", reg(Q, qa), imm(a))
+        self.emit("core.SetInstruction", reg(Q, qb), imm(b))
+        for r in rng.sample([qa, qb], rng.choice([1, 2])):
+            self.emit("core.QAllocInstruction", reg(Q, r))
+            self.emit("core.InitInstruction", reg(Q, r))
+            self.emit(rng.choice(GATE1), reg(Q, r))
+            if rng.random() < 0.5:
+                self.emit("core.MeasInstruction", reg(Q, r), reg(M, rng.randrange(3)))
+            self.emit("core.QFreeInstruction", reg(Q, r))
+        for _ in range(rng.choice([0, 1])):
+            self.stmt(0)
+        self.emit("core.QAllocInstruction", reg(Q, qa))
+        self.emit("core.InitInstruction", reg(Q, qa))
+        self.emit(rng.choice(GATE1), reg(Q, qa))
+        for _ in range(rng.choice([1, 2])):
+            x, y = (qa, qb) if rng.random() < 0.5 else (qb, qa)
+            self.emit(rng.choice(["vanilla.CnotInstruction", "vanilla.CphaseInstruction"]), reg(Q, x), reg(Q, y))
+        if pair != "cc" and self.movs and rng.random() < 0.7:
+            src, tgt = (qa, qb) if rng.random() < 0.5 else (qb, qa)
+            self.emit("core.InitInstruction", reg(Q, tgt))
+            self.emit("vanilla.MovInstruction", reg(Q, src), reg(Q, tgt))
+            self.emit("core.InitInstruction", reg(Q, src))
+            self.features.add("persist2:mov")
+        self.emit("core.QFreeInstruction", reg(Q, qa))
+        self.features.add("set-once-register-reused-after-qfree:" + pair)
+        self.in_realloc = False
 
     def free_and_realloc(self):
         """A qubit is allocated and used through a dedicated Q register, freed, and later re-allocated
